@@ -48,7 +48,7 @@ Fresh(t) ==
 Init == l = 1 /\ m = Fresh(0) /\ cur = [ev |-> "init", b |-> 0, seq |-> 0] /\ viol = {}
 
 Accepted(s, b) == s.res[b] \in {"nil", "flushed", "flusherr"}
-Receivable(s, b) == s.chn[b] \in {"buf", "unbuf"}
+Receivable(s, b) == s.chn[b] \in {"buf", "unbuf", "late"}
 Answered(s, b) == s.answers[b] # <<>>
 Rowsy(s, b) == s.kind[b] = "rows"
 \* API-level happens-before: b2's call returned before b's call started
@@ -180,7 +180,7 @@ P_StopReturnsByDeadline(s, c) == ~s.quietAfterDeadline
 P_StopLatency(s, c) == s.stopSt = "ret_deadline" => s.stopLatency <= LatencyAllowanceMs
 P_WaitersTold(s, c) ==
   (s.settled /\ s.stopSt = "ret_deadline") =>
-      \A b \in B : (Accepted(s, b) /\ Receivable(s, b)) => Len(s.answers[b]) = 1
+      \A b \in B : (Accepted(s, b) /\ s.chn[b] \in {"buf", "unbuf"}) => Len(s.answers[b]) = 1
 
 \* C09 -------------------------------------------------------------------
 P_Backpressure(s, c) == s.lim.ibs > 0 => s.unansweredAtQuiet <= s.lim.ibs + 3 * (s.lim.mb_rows + 1) + 1
